@@ -1,4 +1,6 @@
 import AthlibVerif.Model.Codes
+import AthlibVerif.Oblig.C07.Tie
+import AthlibVerif.Props.C04
 /-!
 # C07 — Event-code normalisation yields one canonical, valid, stable spelling
 
@@ -102,6 +104,48 @@ theorem C07_norm_kinds_end (s : Str) :
     (applyNorm .kg s).getLast? = some 'K' ∧ (∃ t, applyNorm .cm s = t ++ ['c', 'm']) ∧
     (applyNorm .m s).getLast? = some 'm' := by
   refine ⟨by simp [applyNorm], ⟨_, rfl⟩, by simp [applyNorm]⟩
+
+/-! ## acceptance is membership in the language the C04 theorems speak about
+
+The transcription matches with the capture-reporting backtracking matcher on the pattern rendered with groups;
+`Lemmas/MatchSound.lean` proves that matcher sound and complete for the language of its pattern, and
+`Oblig/C07/Tie.lean` ties the two renderings of every regenerated pattern.  Hence: -/
+
+theorem mem_EVENT_CODE : ("PAT_EVENT_CODE", Gen.PAT_EVENT_CODE) ∈ Gen.patternTable := by decide +kernel
+
+/-- the transcription's `PAT_EVENT_CODE.match(s)` is membership in the language of `PAT_EVENT_CODE` -/
+theorem pyMatch_event_code (s : Str) : (pyMatch "PAT_EVENT_CODE" s).isSome = true ↔ Matches Gen.PAT_EVENT_CODE s :=
+  pyMatch_iff _ _ (Oblig.C07.tied mem_EVENT_CODE) s
+
+/-- **Accepted exactly on the language**: normalisation succeeds iff the stripped string is in the language of
+    the general pattern — for every string. -/
+theorem C07_accepts_iff_language (s : Str) :
+    (∃ r, normalize s = .ok r) ↔ Matches Gen.PAT_EVENT_CODE (strip s) := by
+  rw [C07_accepts_only_codes, pyMatch_event_code]
+
+/-- … iff one of the ten specific families accepts it (with `C04`). -/
+theorem C07_accepts_iff_family (s : Str) :
+    (∃ r, normalize s = .ok r) ↔
+      (Matches Gen.PAT_TRACK (strip s) ∨ Matches Gen.PAT_HURDLES (strip s) ∨ Matches Gen.PAT_ROAD (strip s) ∨
+       Matches Gen.PAT_RELAYS (strip s) ∨ Matches Gen.PAT_JUMPS (strip s) ∨ Matches Gen.PAT_THROWS (strip s) ∨
+       Matches Gen.PAT_MULTI (strip s) ∨ Matches Gen.PAT_RACES_FOR_DISTANCE (strip s) ∨
+       Matches Gen.PAT_HIGHSCORING_EVENT (strip s) ∨ Matches Gen.PAT_LOWSCORING_EVENT (strip s)) := by
+  rw [C07_accepts_iff_language]; exact Props.C04.C04_event_code (strip s)
+
+/-- **Refused exactly off the language**, with `ValueError`. -/
+theorem C07_refused_iff_not_code (s : Str) :
+    normalize s = .error .valueError ↔ ¬ Matches Gen.PAT_EVENT_CODE (strip s) := by
+  rw [← C07_accepts_iff_language]
+  constructor
+  · rintro h ⟨r, hr⟩; rw [h] at hr; cases hr
+  · intro h
+    cases hn : normalize s with
+    | ok r => exact (h ⟨r, hn⟩).elim
+    | error e => rw [C07_only_value_error s e hn]
+
+/-- non-vacuity: a code and a non-code, kernel-evaluated through the matcher -/
+example : (pyMatch "PAT_EVENT_CODE" "4x100".toList).isSome = true ∧ (pyMatch "PAT_EVENT_CODE" "4x".toList).isSome = false := by
+  decide +kernel
 
 /-- Full statement of the closure clauses (NOT proved here). -/
 def C07_statement : Prop :=
